@@ -30,7 +30,7 @@ from common import Err, cbool, clist, errkind
 PROP = "C17"
 COQ_HEADER = "From Verif Require Import Np Group Param Engine EngineTrace CorrEng Corr_C17."
 COQ_RUN = "Corr_C17.run"
-SHARD = 12
+SHARD = 20
 ANCHORS = ["openfisca_core/simulations/simulation.py", "openfisca_core/holders/holder.py",
            "openfisca_core/data_storage/on_disk_storage.py", "openfisca_core/data_storage/in_memory_storage.py",
            "openfisca_core/tracers/full_tracer.py", "openfisca_core/tracers/simple_tracer.py",
@@ -48,7 +48,8 @@ TRUSTED = ["harness/rules.py: compiler from rule-system terms to real Variable s
            "harness/c17.py: wrappers around rules.ev and simulation.calculate that record what the formulas asked for"]
 ASSUMPTIONS = ["value types int, float, bool only (the engine model has no str/enum/date arrays; their disk round trip "
                "is covered by C19/C15)",
-               "equality of answers across configurations is claimed for ranked systems (no self-dependence) whose "
+               "equality of answers across configurations is claimed for ranked systems (no self-dependence, no "
+               "eternal variable with a formula: `ranked` of the model) whose "
                "inputs are all set before the first calculation and that are not mutated afterwards (no delete_arrays, "
                "no switch toggling): a configuration that drops a store recomputes from the current inputs where the "
                "plain run returns the value cached before the mutation; stack and trace clauses are claimed for every "
@@ -309,6 +310,10 @@ def coq_case(case):
             f"{clist([rules.crequest(r) for r in case['requests']])} {cfgs})")
 
 
+def final_cache(run):
+    return run["reqs"][-1][2] if run["reqs"] else []
+
+
 def obs_for_coq(case, obs):
     """what the model must reproduce; the textual keys of the flat trace are replaced by the node
     keys of the trees that print to them (a text that no node prints to is kept and never matches)"""
@@ -323,9 +328,9 @@ def obs_for_coq(case, obs):
                     a, b = flat_key_text(n[0])
                     keys.setdefault(a if n[0][0] < len(case["sys"]["vars"]) else b, n[0])
             flat = [[keys.get(k, k), [keys.get(d, d) for d in deps], val] for k, deps, val in run["flat"]]
-            out.append([run["reqs"], [run["trees"], flat, run["open"]]])
+            out.append([[o[:2] for o in run["reqs"]], final_cache(run), [run["trees"], flat, run["open"]]])
         else:
-            out.append([run["reqs"], None])
+            out.append([[o[:2] for o in run["reqs"]], final_cache(run), None])
     return out
 
 
@@ -343,8 +348,16 @@ def rec_to_tree(n):
     return [n["key"], n["value"], [rec_to_tree(c) for c in n["children"]]]
 
 
+def model_ranked(sys):
+    """`ranked` of coq/proofs/EngineProofs.v: dependencies point to strictly smaller indices and
+    eternal variables carry no formula (the value of an eternal variable with a dated or
+    period-reading formula is the one computed for whichever period was requested first, so it
+    legitimately differs when the store is skipped)"""
+    return rules.is_ranked(sys) and not any(v["unit"] == "eternity" and v["formulas"] for v in sys["vars"])
+
+
 def claimed_invariance(case):
-    if not rules.is_ranked(case["sys"]):
+    if not model_ranked(case["sys"]):
         return False
     seen_calc = False
     for r in case["requests"]:
@@ -532,7 +545,8 @@ def classify(case, obs):
     if isinstance(obs, Err):
         return "driver-error"
     kinds = sorted({o[0].kind for o in obs["runs"][0]["reqs"] if isinstance(o[0], Err)})
-    tag = case.get("stream", "?") + ("" if rules.is_ranked(case["sys"]) else "/self-dependent")
+    tag = case.get("stream", "?") + ("" if rules.is_ranked(case["sys"]) else "/self-dependent") + (
+        "" if model_ranked(case["sys"]) or not rules.is_ranked(case["sys"]) else "/eternal-formula")
     return tag + ("+" + "+".join(kinds) if kinds else "")
 
 
